@@ -374,3 +374,186 @@ func init() {
 var _ = strings.Join
 
 func exitNow() { os.Exit(0) }
+
+// ---------------------------------------------------------------- built-in connection transports (C14, last clause)
+
+type trackedDialer struct {
+	mem   *memDialer
+	fail  bool
+	conns []*simConn
+}
+
+func (d *trackedDialer) SetOpts(time.Duration, time.Duration) {}
+func (d *trackedDialer) Dial(ctx context.Context, network, addr string) (net.Conn, error) {
+	if d.fail {
+		return nil, fmt.Errorf("dial refused")
+	}
+	c, err := d.mem.Dial(ctx, network, addr)
+	if err == nil {
+		d.conns = append(d.conns, c.(*simConn))
+	}
+	return c, err
+}
+
+func simClosed(c *simConn) bool {
+	select {
+	case <-c.closeCh:
+		return true
+	default:
+		return false
+	}
+}
+
+func init() {
+	verifModes["builtin"] = func(c *vctx) {
+		synctest.Test(c.t, func(t *testing.T) {
+			now := time.Now()
+			kit := &certKit{}
+			kit.ca, kit.caKey, kit.caPEM = mkCA("good ca", now)
+			leaf := mkLeaf("valid", kit, now)
+			badLeaf := mkLeaf("othername", kit, now)
+			g := newPrng(c.seed, 79)
+			nOps := 0
+			for i := 0; i < c.n; i++ {
+				useTLS := i%2 == 1
+				curLeaf := leaf
+				mem := &memDialer{}
+				mem.serve = func(conn net.Conn) {
+					srv := tls.Server(conn, &tls.Config{Certificates: []tls.Certificate{curLeaf}, Time: time.Now})
+					if useTLS {
+						_ = srv.Handshake()
+						buf := make([]byte, 1)
+						_, _ = srv.Read(buf)
+					} else {
+						buf := make([]byte, 1)
+						_, _ = conn.Read(buf)
+					}
+				}
+				td := &trackedDialer{mem: mem}
+				var ct ConnectionTransport
+				if useTLS {
+					ct = &ConnectionTransportTLS{rootCerts: kit.caPEM, srvRemote: NewFixedRemote("good.example.com:443"),
+						maxFrameLength: 1 << 20, logFactory: quietLogFactory(), handshakeTimeout: 5 * time.Second, dialable: td,
+						log: newConnectionLogUnstructured(quietOut{}, "T")}
+				} else {
+					uri, _ := ParseFMPURI("fmprpc://good.example.com:443")
+					ct = NewConnectionTransportWithDialable(uri, quietLogFactory(), nil, nil, 1<<20, td)
+				}
+				var xps []Transporter // every transport Dial returned, in order
+				var xconns []*simConn // the network connection of each of them
+				var current Transporter
+				var staged Transporter
+				var ops []string
+				bad := ""
+				check := func(what string) {
+					if bad != "" {
+						return
+					}
+					switch what {
+					case "finalize":
+						for _, x := range xps {
+							if x != current && x.IsConnected() {
+								bad = "after Finalize an earlier transport is still open"
+							}
+						}
+						// every connection except the current transport's own is closed
+						for k, sc := range xconns {
+							if xps[k] != current && !simClosed(sc) {
+								bad = "after Finalize the network connection of an earlier transport is still open"
+							}
+						}
+					case "close":
+						for _, x := range xps {
+							if x.IsConnected() {
+								bad = "after Close a transport is still open"
+							}
+						}
+						for _, sc := range xconns {
+							if !simClosed(sc) {
+								bad = "after Close the network connection of a transport is still open"
+							}
+						}
+					}
+				}
+				n := 2 + g.intn(8)
+				func() {
+					defer func() {
+						if r := recover(); r != nil {
+							bad = fmt.Sprintf("panic: %v", r)
+						}
+					}()
+					for k := 0; k < n && bad == ""; k++ {
+						switch r := g.intn(10); {
+						case r < 3:
+							td.fail = !useTLS || g.chance(1, 2)
+							curLeaf = badLeaf // a TLS dial can also fail in the handshake
+							_, err := ct.Dial(context.Background())
+							td.fail = false
+							curLeaf = leaf
+							ops = append(ops, "dialfail")
+							if err == nil {
+								bad = "scripted dial failure succeeded"
+							}
+						case r < 7:
+							x, err := ct.Dial(context.Background())
+							ops = append(ops, "dial")
+							if err != nil {
+								bad = "dial failed: " + err.Error()
+							} else {
+								xps = append(xps, x)
+								xconns = append(xconns, td.conns[len(td.conns)-1])
+								staged = x
+							}
+						case r < 9:
+							if staged != nil {
+								ct.Finalize()
+								current, staged = staged, nil
+								ops = append(ops, "finalize")
+								synctest.Wait()
+								check("finalize")
+							}
+						default:
+							ct.Close()
+							ops = append(ops, "close")
+							synctest.Wait()
+							check("close")
+							current, staged = nil, nil
+						}
+						nOps++
+						synctest.Wait()
+					}
+					if bad == "" {
+						ct.Close()
+						ops = append(ops, "close")
+						synctest.Wait()
+						check("close")
+					}
+				}()
+				kind := "plain"
+				if useTLS {
+					kind = "tls"
+				}
+				c.note("builtin %s ops=%s", kind, strings.Join(ops, ","))
+				c.op("selfcheck")
+				if bad != "" {
+					c.res("FAIL %s %s: %s", kind, strings.Join(ops, ","), bad)
+				} else {
+					c.res("ok")
+				}
+				for _, sc := range td.conns {
+					sc.Close()
+					sc.peerEOF()
+				}
+				for _, sc := range mem.conns {
+					sc.Close()
+				}
+				synctest.Wait()
+			}
+			fmt.Printf("STAT builtin_ops %d\n", nOps)
+			c.ops.Flush()
+			c.out.Flush()
+			c.meta.Flush()
+			exitNow()
+		})
+	}
+}
